@@ -75,6 +75,11 @@ type Ctx struct {
 	Sites int
 	rule  string // current rule prefix
 	doms  map[*ssa.Function]*struct{}
+	// Repo is the repository root and Overlay the mutant overlay (absolute path
+	// -> contents), for rules that parse files outside the loaded build
+	// configuration (build-tag variants, assembly).
+	Repo    string
+	Overlay map[string][]byte
 }
 
 type anchorErr struct{ msg string }
